@@ -158,10 +158,8 @@ func (r *run) forgeElement(rr *simkit.Rand, kind int, real []byte) ([]byte, bool
 	case fgTypedGarbage:
 		return append(rr.Bytes(rr.Intn(80)), byte(rr.Intn(3))), true
 	case fgNonCanonical:
-		if len(real) > 1 {
-			b := append([]byte(nil), real[:len(real)-1]...)
-			b = append(b, 0x78, byte(1+rr.Intn(100))) // field 15, varint: unknown to every node type
-			return append(b, real[len(real)-1]), true
+		if nc := nonCanonical(rr, real); nc != nil {
+			return nc, true
 		}
 	case fgUnsolicited:
 		if len(r.srcHashes) > 0 {
@@ -216,4 +214,51 @@ func (r *run) byzantineAnswer(p *peerT, e *event) {
 	}
 	// forged is at least 1 so that the seam leaves the element order alone and a panic is attributed to this peer
 	r.enqueueResponse(p, b, forged+1)
+}
+
+// pbBytes encodes one length-delimited protobuf field.
+func pbBytes(field byte, v []byte) []byte {
+	out := []byte{field<<3 | 2}
+	n := len(v)
+	for n >= 0x80 {
+		out = append(out, byte(n)|0x80)
+		n >>= 7
+	}
+	out = append(out, byte(n))
+	return append(out, v...)
+}
+
+// nonCanonical returns another byte string that decodes to exactly the node real encodes: an unknown protobuf field
+// (number 15, varint) in front of, inside or behind the known fields, or - for extension and leaf nodes - the two
+// fields in the opposite order. Its content hash (what the repository hashes: the re-marshalled node) is unchanged,
+// the hash of the raw bytes is not.
+func nonCanonical(rr *simkit.Rand, real []byte) []byte {
+	if len(real) < 2 {
+		return nil
+	}
+	typ, body := real[len(real)-1], real[:len(real)-1]
+	unknown := []byte{0x78, byte(1 + rr.Intn(100))}
+	variant := rr.Intn(3)
+	if variant == 2 {
+		switch typ {
+		case typeExtension:
+			en := &trie.CollapsedEn{}
+			if en.Unmarshal(body) == nil && len(en.Key) > 0 && len(en.EncodedChild) > 0 {
+				return append(append(pbBytes(2, en.EncodedChild), pbBytes(1, en.Key)...), typ)
+			}
+		case typeLeaf:
+			ln := &trie.CollapsedLn{}
+			if ln.Unmarshal(body) == nil && len(ln.Key) > 0 && len(ln.Value) > 0 {
+				return append(append(pbBytes(2, ln.Value), pbBytes(1, ln.Key)...), typ)
+			}
+		}
+		variant = rr.Intn(2)
+	}
+	var b []byte
+	if variant == 0 {
+		b = append(append(b, body...), unknown...)
+	} else {
+		b = append(append(b, unknown...), body...)
+	}
+	return append(b, typ)
 }
